@@ -156,7 +156,7 @@ def run(facts, rep, tier):
                 if x.mode == 'W' and x.root[0] == 'owner' and common.is_quiescent_true_write(x.node, facts): return 'E4 (restart write while no worker exists)'
         # E6: the task object a thread body received by copy-captured pointer and deletes itself is owned by that thread
         for x in (a, b):
-            if x.root[0] == 'worker' and len(x.path) == 3 and x.path[0] == 'cap' and common.thread_body_deletes(facts, x.root[1], x.path[1]):
+            if x.root[0] == 'worker' and len(x.path) == 3 and x.path[0] == 'cap' and common.thread_body_deletes(facts, x.root[1], x.path[1], x.chain):
                 if a.root == b.root and a.path[:2] == b.path[:2]: return 'E6 (task object owned by the thread that runs and deletes it)'
         if e7_ok and a.root[0] == 'worker' and b.root[0] == 'worker' and all(any(x.path[i:i + 2] == ('m_queue', '*') for i in range(len(x.path) - 1)) for x in (a, b)):
             return 'E7 (task removed from the queue under m_queueMutex: owned by the worker that removed it)'
